@@ -254,12 +254,35 @@ Theorem follower_with_prev_in_log_gets_entries : forall E snp next, wf_files E -
 Proof. exact append_when_prev_in_log. Qed.
 Print Assumptions follower_with_prev_in_log_gets_entries.
 
+(* the converse: a follower whose next entry is already below the leader's first index is sent a snapshot (which carries
+   no shard data), for both lookup variants *)
+Theorem follower_below_log_gets_snapshot : forall exact E snp next,
+  (next < log_first E)%N -> (next <= N.max (log_last E) snp)%N -> send_append exact E snp next = false.
+Proof. exact snapshot_when_next_below_log. Qed.
+Print Assumptions follower_below_log_gets_snapshot.
+
+(* ... and so is a follower whose log ends exactly where the leader's begins (Term(first-1) is compacted), unless the
+   leader's snapshot index is that very entry: the strict form efirst < |log m| of catch_up_from_log_guaranteed is needed *)
+Theorem follower_ending_just_before_log_gets_snapshot : forall E snp next, wf_files E ->
+  (1 < next)%N -> next = log_first E -> (next - 1 <= N.max (log_last E) snp)%N -> snp <> (next - 1)%N ->
+  send_append true E snp next = false.
+Proof. exact snapshot_when_prev_just_before_log. Qed.
+Print Assumptions follower_ending_just_before_log_gets_snapshot.
+
 (* the hypotheses are satisfiable: a log of 60100 entries in three files of 30000 *)
 Example three_file_log_is_wf :
   wf_files (layout_files 30000 1 60100) /\ log_first (layout_files 30000 1 60100) = 1%N /\
   log_last (layout_files 30000 1 60100) = 60100%N /\
   seek true (layout_files 30000 1 60100) 30001 = SFound 30001%N /\
   send_append true (layout_files 30000 1 60100) 60050 30002 = true.
+Proof. vm_compute. repeat split; try reflexivity; try discriminate. Qed.
+
+(* the same log after its first file was deleted: a follower that ends at 30000 or earlier gets a snapshot *)
+Example truncated_log_sends_snapshot :
+  wf_files (layout_files 30000 30001 60100) /\ log_first (layout_files 30000 30001 60100) = 30001%N /\
+  send_append true (layout_files 30000 30001 60100) 60050 30001 = false /\
+  send_append true (layout_files 30000 30001 60100) 60050 30000 = false /\
+  send_append true (layout_files 30000 30001 60100) 60050 30002 = true.
 Proof. vm_compute. repeat split; try reflexivity; try discriminate. Qed.
 
 (* ---------------------------------------------------------------- catch-up and the data-less raft snapshot (Catchup.v) *)
